@@ -21,7 +21,8 @@ RULE = ("one case = a world (scenario with 0..4 lanelets [stop line optional], t
         "distinct = canonical JSON of the case; non-trivial = every case (>= 1 object, a != 0 or t != 0 in > 95 %)")
 ASSUMPTIONS = [
     "float rounding inside + - * of the matrix product is modelled as exact; the correspondence accepts 64*eps*(1+|p|+|t|) per "
-    "coordinate (a rigorous bound for 3 products and 3 sums with |cos|,|sin| <= 1) and 1e-13 per angle; the oracle the same",
+    "coordinate (a rigorous bound for 3 products and 3 sums with |cos|,|sin| <= 1; 4*eps*(...) in probe cases, where p + t is "
+    "exact) and 1e-13 per angle; the oracle the same",
     "orientations are compared as angles (mod 2pi) and must lie in [-2pi, 2pi]; both ends of an orientation interval move by the "
     "same multiple of 2pi",
     "(cos a, sin a) are parameters of the model, sent as the exact rationals of math.cos(a), math.sin(a)",
@@ -29,12 +30,15 @@ ASSUMPTIONS = [
     "distances, inverse motion) is compared with relative 1e-9 as in the property text ('to rounding accuracy')",
     "the shape of an obstacle / trajectory prediction is given in the body frame and is not moved; obstacle shapes are generated "
     "centred at the origin (documented convention) so that occupancy_at_time is the rigid image",
-    "not covered (not named by the property text, observed unmoved): Area borders of a lanelet network, TrafficLight.shape; "
-    "velocity / acceleration components other than PMState (velocity, velocity_y); occupancy sets of a TrajectoryPrediction "
-    "cached BEFORE the motion (cache invalidation is C11) - the oracle reads them from a deep copy",
+    "Area borders of a lanelet network are stored points of a scenario that the property's list of components does not name; they "
+    "are observed (oracle only) and reported under their own finding key (known-findings.txt); TrafficLight.shape (undocumented "
+    "optional rectangle) is not observed",
+    "not demanded (the property text speaks of points and orientations): velocity / acceleration components other than the "
+    "velocity vector of a PMState, from which its orientation is derived; occupancy sets of a TrajectoryPrediction cached BEFORE "
+    "the motion (cache invalidation is C11's subject) - the oracle reads occupancies from a deep copy with cold caches",
     "3-D vertices (z) are outside the property (planar rigid motion)",
 ]
-REQUIRED_BUCKETS = ["angle/zero", "angle/tiny", "angle/small<=0.05", "angle/0.05-edge", "angle/quarter-turn", "angle/full-turn",
+REQUIRED_BUCKETS = ["area", "angle/zero", "angle/tiny", "angle/small<=0.05", "angle/0.05-edge", "angle/quarter-turn", "angle/full-turn",
                     "angle/generic", "angle/out-of-range", "t/zero", "t/dyadic", "t/float", "mode/whole", "mode/network",
                     "mode/parts", "probe", "obst/static", "obst/dynamic-traj", "obst/dynamic-set", "obst/phantom", "obst/env",
                     "state/PMState", "state/uncertain-pos", "state/uncertain-ori", "lanelet/stop-line", "sign", "light",
@@ -296,9 +300,12 @@ def gen_case(ctx):
     signs = [{"id": 100 + i, "pos": _pt(r), "lanelet": r.randint(1, nl)} for i in range(r.choice([0, 1, 2]))] if nl else []
     lights = [{"id": 200 + i, "pos": _pt(r), "lanelet": r.randint(1, nl)} for i in range(r.choice([0, 1, 2]))] if nl else []
     obstacles = [gen_obstacle(r, 300 + i, a) for i in range(r.choice([0, 1, 2, 3, 5]))]
+    areas = [{"id": 700, "borders": [[_pt(r) for _ in range(r.randint(2, 4))] for _ in range(r.randint(1, 2))]}] \
+        if valid and mode != "parts" and r.random() < 0.15 else []
     problems = [gen_problem(r, 500 + i, a) for i in range(r.choice([0, 1, 1, 2]))]
     loose = [gen_loose(r, k, a) for k in r.sample(LOOSE_KINDS, r.choice([1, 2, 3]))]
-    return {"a": a, "t": t, "mode": mode, "scenario": {"lanelets": lanelets, "signs": signs, "lights": lights, "obstacles": obstacles},
+    return {"a": a, "t": t, "mode": mode, "scenario": {"lanelets": lanelets, "signs": signs, "lights": lights, "obstacles": obstacles,
+                                                        "areas": areas},
             "problems": problems, "loose": loose}
 
 
@@ -449,6 +456,9 @@ def build_world(case):
         sc.add_objects(build_light(x), {x["lanelet"]})
     for o in s["obstacles"]:
         sc.add_objects(build_obstacle(o))
+    for ar in s.get("areas", []):
+        from commonroad.scenario.area import Area, AreaBorder
+        sc.lanelet_network.add_area(Area(ar["id"], [AreaBorder(ar["id"] + 1 + i, _arr(b)) for i, b in enumerate(ar["borders"])]), set())
     return sc, PlanningProblemSet([build_problem(p) for p in case["problems"]])
 
 
@@ -497,8 +507,39 @@ def _ps(arr):
     return [[float(x), float(y)] for x, y in arr]
 
 
+# reflection pass: spatial attributes (arrays / shapes) the snapshot knows about, per class; a class that grows another one
+# makes the run stop with exit 2 (coverage must not be lost silently)
+KNOWN_SPATIAL = {
+    "Rectangle": {"_center", "_vertices"}, "Circle": {"_center"}, "Polygon": {"_vertices", "_min", "_max"}, "ShapeGroup": set(),
+    "Lanelet": {"_left_vertices", "_center_vertices", "_right_vertices", "_distance", "_inner_distance", "_polygon"},
+    "StopLine": {"_start", "_end"}, "TrafficSign": {"_position"}, "TrafficLight": {"_position", "_shape"},
+    "StaticObstacle": {"_obstacle_shape", "_initial_occupancy_shape"}, "DynamicObstacle": {"_obstacle_shape", "_initial_occupancy_shape"},
+    "PhantomObstacle": set(), "EnvironmentObstacle": {"_obstacle_shape"}, "Occupancy": {"_shape"},
+    "TrajectoryPrediction": {"_shape"}, "SetBasedPrediction": set(), "Trajectory": set(), "GoalRegion": set(),
+    "PlanningProblem": set(),
+}
+_reflected = set()
+
+
+def reflect(obj):
+    import numpy as np
+    from commonroad.geometry.shape import Shape
+    from commonroad.scenario.state import State
+    name = type(obj).__name__
+    if name in _reflected:
+        return
+    _reflected.add(name)
+    known = {"position"} if isinstance(obj, State) else KNOWN_SPATIAL.get(name)
+    if known is None:
+        raise InfraError(f"C05 snapshot: no attribute list for class {name}")
+    for k, v in vars(obj).items():
+        if isinstance(v, (np.ndarray, Shape)) and k not in known:
+            raise InfraError(f"C05 snapshot: {name}.{k} holds a {type(v).__name__} the snapshot does not list")
+
+
 def snap_shape(sh):
     from commonroad.geometry.shape import Circle, Polygon, Rectangle, ShapeGroup
+    reflect(sh)
     if isinstance(sh, Rectangle):
         return {"k": "rect", "l": sh.length, "w": sh.width, "c": _p(sh.center), "th": sh.orientation}
     if isinstance(sh, Circle):
@@ -511,6 +552,7 @@ def snap_shape(sh):
 
 
 def snap_state(st):
+    reflect(st)
     import numpy as np
     from commonroad.common.util import AngleInterval
     from commonroad.geometry.shape import Shape
@@ -532,7 +574,10 @@ def snap_state(st):
 
 
 def snap_lanelet(la):
+    reflect(la)
     sl = la.stop_line
+    if sl is not None:
+        reflect(sl)
     return {"l": _ps(la.left_vertices), "c": _ps(la.center_vertices), "r": _ps(la.right_vertices),
             "stop": None if sl is None else [_p(sl.start), _p(sl.end)], "poly": _ps(la.polygon.vertices)}
 
@@ -540,6 +585,11 @@ def snap_lanelet(la):
 def snap_obstacle(o):
     from commonroad.prediction.prediction import SetBasedPrediction, TrajectoryPrediction
     from commonroad.scenario.obstacle import DynamicObstacle, EnvironmentObstacle, PhantomObstacle, StaticObstacle
+    reflect(o)
+    if getattr(o, "prediction", None) is not None:
+        reflect(o.prediction)
+        for c in (o.prediction.occupancy_set if isinstance(o.prediction, SetBasedPrediction) else []):
+            reflect(c)
     if isinstance(o, StaticObstacle):
         return {"k": "static", "st": snap_state(o.initial_state)}
     if isinstance(o, DynamicObstacle):
@@ -558,12 +608,18 @@ def snap_scenario(sc):
     net = sc.lanelet_network
     obs = sorted(sc.obstacles, key=lambda o: o.obstacle_id)
     return {"lanelets": [snap_lanelet(la) for la in sorted(net.lanelets, key=lambda x: x.lanelet_id)],
-            "signs": [_p(s.position) for s in sorted(net.traffic_signs, key=lambda x: x.traffic_sign_id)],
-            "lights": [_p(s.position) for s in sorted(net.traffic_lights, key=lambda x: x.traffic_light_id)],
+            "signs": [_p(s.position) for s in sorted(net.traffic_signs, key=lambda x: (reflect(x), x.traffic_sign_id)[1])],
+            "lights": [_p(s.position) for s in sorted(net.traffic_lights, key=lambda x: (reflect(x), x.traffic_light_id)[1])],
             "obstacles": [snap_obstacle(o) for o in obs]}
 
 
+def snap_areas(sc):
+    """Area borders of the lanelet network (not part of the model: the property text does not name them; see known-findings)."""
+    return [[_ps(b.border_vertices) for b in ar.border] for ar in sorted(sc.lanelet_network.areas, key=lambda x: x.area_id)]
+
+
 def snap_problem(pp):
+    reflect(pp)
     return {"init": snap_state(pp.initial_state), "goal": [snap_state(s) for s in pp.goal.state_list]}
 
 
@@ -823,8 +879,8 @@ class Cmp:
     """Snap the implementation tree to the model tree: a number of the implementation that equals the model's number up to the
     rounding allowance is replaced by the model's number (so equal trees = agreement), anything else is kept."""
 
-    def __init__(self, scale, tau):
-        self.coord_tol = 64 * EPS * scale
+    def __init__(self, scale, tau, k=64):
+        self.coord_tol = k * EPS * scale
         self.ang_tol = 1e-13
         self.tau = tau
 
@@ -941,13 +997,14 @@ class Oracle:
         self.c, self.s = frac(math.cos(self.a)), frac(math.sin(self.a))
         self.tau = frac(TAU())
         self.tn = abs(self.t[0]) + abs(self.t[1])
+        self.k = 4 if case.get("probe") else 64       # probe cases: every sum p + t is exact, (cos, sin) are read back to 4 eps
 
     def fail(self, site, obs, what):
         self.ctx.fail(f"C05/{site}/{obs}", what, self.sub(site))
 
-    def point(self, site, path, before, after, k=64):
+    def point(self, site, path, before, after):
         want = rigid(self.c, self.s, self.t, before)
-        tol = k * frac(EPS) * (1 + self.tn + abs(frac(before[0])) + abs(frac(before[1])))
+        tol = self.k * frac(EPS) * (1 + self.tn + abs(frac(before[0])) + abs(frac(before[1])))
         if abs(frac(after[0]) - want[0]) > tol or abs(frac(after[1]) - want[1]) > tol:
             self.fail(site, "point-not-R(a)(p+t)",
                       f"{path}: p={before} t={self.case['t']['v']} a={self.a!r}: got {after}, R(a)(p+t) = "
@@ -992,6 +1049,21 @@ class Oracle:
                 if abs(frac(x[0]) - want[0]) > tol or abs(frac(x[1]) - want[1]) > tol:
                     self.fail(site, "pm-velocity-not-rotated", f"{path}: v={b} a={self.a!r}: got {x}")
                     return
+
+    def areas(self, site, before, after):
+        """stored points of a scenario that the property's list of components does not name: reported under their own key."""
+        if getattr(self.ctx, "_c05_area_reported", 0) >= 3:
+            return          # a recorded finding: a few witnesses per worker are enough (the failure list is bounded)
+        for i, (ab, aa) in enumerate(zip(before, after)):
+            for j, (bb, ba) in enumerate(zip(ab, aa)):
+                for p, q in zip(bb, ba):
+                    want = rigid(self.c, self.s, self.t, p)
+                    tol = 64 * frac(EPS) * (1 + self.tn + abs(frac(p[0])) + abs(frac(p[1])))
+                    if abs(frac(q[0]) - want[0]) > tol or abs(frac(q[1]) - want[1]) > tol:
+                        self.ctx._c05_area_reported = getattr(self.ctx, "_c05_area_reported", 0) + 1
+                        self.fail(site, "area-border-not-moved", f"area {i} border {j}: p={p} -> {q}, R(a)(p+t) = "
+                                  f"[{float(want[0])!r}, {float(want[1])!r}] (t={self.case['t']['v']}, a={self.a!r})")
+                        return
 
     def consequences(self, site, before, after, S):
         """pairwise distances preserved (relative 1e-9)."""
@@ -1168,6 +1240,7 @@ def run_case(ctx, case):
     before = {"scenario": snap_scenario(sc), "problems": snap_problems(pps),
               "loose": [snap_loose(lo["kind"], o) for lo, o in zip(case["loose"], loose_objs)]}
     dbefore = derived_world(sc, pps, loose_objs, case) if valid else None
+    areas_before = snap_areas(sc)
     S = case_scale(case, before)
 
     # ---- the motion
@@ -1185,7 +1258,7 @@ def run_case(ctx, case):
     model = ctx.driver.ask("C05", "move", margs)
 
     # ---- after
-    cmp_ = Cmp(S, tau)
+    cmp_ = Cmp(S, tau, 4 if case.get("probe") else 64)
     after = {"scenario": None, "problems": None, "loose": [None] * len(loose_objs)}
     if werr is None:
         after["scenario"], after["problems"] = snap_scenario(sc), snap_problems(pps)
@@ -1228,6 +1301,9 @@ def run_case(ctx, case):
         orc.stored("Scenario.translate_rotate" if case["mode"] == "whole" else f"scenario[{case['mode']}]", before["scenario"], after["scenario"])
         orc.consequences("Scenario.translate_rotate" if case["mode"] == "whole" else f"scenario[{case['mode']}]",
                          before["scenario"], after["scenario"], S)
+    if after["scenario"] is not None and areas_before and case["mode"] != "parts":
+        ctx.tag("area")
+        orc.areas("LaneletNetwork.translate_rotate", areas_before, snap_areas(sc))
     if after["problems"] is not None:
         orc.stored("PlanningProblemSet.translate_rotate" if case["mode"] == "whole" else f"problems[{case['mode']}]",
                    before["problems"], after["problems"])
@@ -1259,7 +1335,7 @@ def run_case(ctx, case):
 def run(ctx):
     for p in sorted(glob.glob(os.path.join(CORPUS_DIR, "C05", "*.json"))):
         run_case(ctx, json.load(open(p)))
-    n = ctx.n(260)
+    n = ctx.n(400)
     for i in range(n):
         run_case(ctx, gen_probe_case(ctx) if i % 5 == 4 else gen_case(ctx))
 
@@ -1269,3 +1345,59 @@ search = run
 
 def replay(ctx, case):
     run_case(ctx, case)
+
+
+def _still_fails(case, key):
+    from common import Ctx
+    ctx = Ctx("C05", "quick", 0)
+    try:
+        run_case(ctx, case)
+        return any(f.key == key for f in ctx.failures)
+    except Exception:  # noqa
+        return False
+    finally:
+        ctx.close()
+
+
+def shrink(case, key):
+    """Greedy: drop obstacles, problems, loose objects, areas, signs, lights, lanelets one at a time while the same finding
+    key is still reported on the real code."""
+    case = copy.deepcopy(case)
+    if not _still_fails(case, key):
+        return case
+    budget = [80]
+
+    def try_drop(get, put):
+        i = 0
+        while i < len(get()) and budget[0] > 0:
+            items = get()
+            cand = items[:i] + items[i + 1:]
+            put(cand)
+            budget[0] -= 1
+            if _still_fails(case, key):
+                continue
+            put(items)
+            i += 1
+
+    sc = case["scenario"]
+    try_drop(lambda: case["loose"], lambda v: case.__setitem__("loose", v))
+    try_drop(lambda: case["problems"], lambda v: case.__setitem__("problems", v))
+    try_drop(lambda: sc["obstacles"], lambda v: sc.__setitem__("obstacles", v))
+    try_drop(lambda: sc.get("areas", []), lambda v: sc.__setitem__("areas", v))
+    try_drop(lambda: sc["signs"], lambda v: sc.__setitem__("signs", v))
+    try_drop(lambda: sc["lights"], lambda v: sc.__setitem__("lights", v))
+    used = {x["lanelet"] for x in sc["signs"] + sc["lights"]}
+    i = 0
+    while i < len(sc["lanelets"]) and budget[0] > 0:
+        if sc["lanelets"][i]["id"] in used:
+            i += 1
+            continue
+        items = sc["lanelets"]
+        sc["lanelets"] = items[:i] + items[i + 1:]
+        budget[0] -= 1
+        if not _still_fails(case, key):
+            sc["lanelets"] = items
+            i += 1
+    for p in case["problems"]:
+        try_drop(lambda: p["goal"], lambda v: p.__setitem__("goal", v)) if len(p["goal"]) > 1 else None
+    return case
